@@ -31,6 +31,15 @@ fn gen_item(rng: &mut Rng, id: i64, k: usize, big: bool) -> (Resp, Option<Vec<Re
         0 => Resp::Intermediate { name: None, value: None }, // 7-byte message
         1 => Resp::Intermediate { name: Some("1.2.3".into()), value: Some(format!("i:{}:{}", id, k).into_bytes()) },
         2 => Resp::Reference(vec![format!("ldap://r/{}.{}", id, k)]),
+        // a wide message: one attribute with thousands of short values, or more than a thousand attributes
+        3 if big => {
+            let n = 1025 + rng.usize(3000);
+            if rng.bool() {
+                Resp::Entry { dn: format!("e={}.{}", id, k).into_bytes(), attrs: vec![(b"member".to_vec(), (0..n).map(|j| format!("u{}", j).into_bytes()).collect())] }
+            } else {
+                Resp::Entry { dn: format!("e={}.{}", id, k).into_bytes(), attrs: (0..n).map(|j| (format!("a{}", j).into_bytes(), vec![b"v".to_vec()])).collect() }
+            }
+        }
         _ => Resp::Entry { dn: format!("e={}.{}", id, k).into_bytes(), attrs: if rng.bool() { vec![(b"a".to_vec(), vec![payload(rng, big)])] } else { vec![] } },
     };
     let c = if rng.chance(1, 4) { crate::gen::gen_resp_controls(rng) } else { None };
@@ -554,4 +563,24 @@ pub fn replay(ctx: &Ctx, v: &Value) -> Report {
         }
     }
     rep
+}
+
+/// Two searches share the connection and the reader of one gives up; whether the rest of both results
+/// arrives in the same burst as the first part or in a later one, the other search is delivered the
+/// same complete sequence.
+pub fn given_up_neighbour(ctx: &Ctx) -> Report {
+    let n = ctx.n(4_000, 2_000_000);
+    par_cases(ctx, "given_up_neighbour", n, ctx.secs(10, 200), |i, rng, rep| {
+        let o = crate::lanes::c10::dropped_neighbour_case(rng);
+        let replay = json!({"lane":"given_up_neighbour","case":i});
+        if o.b != o.b_expected {
+            rep.violation(
+                format!("C06:complete-messages-not-delivered:search-next-to-a-given-up-search:{}", if o.split { "rest-in-a-later-segment" } else { "one-segment" }),
+                format!("{}: want {:?} got {:?}; driver {}", o.how, o.b_expected, o.b, o.driver),
+                replay,
+            );
+        }
+        rep.count(if o.split { "neighbour_rest_in_a_later_segment" } else { "neighbour_one_segment" }, 1);
+        rep.case(Some(fnv(format!("{}{}{}", o.how, o.split, o.b_expected.len()).as_bytes())));
+    })
 }
